@@ -41,6 +41,7 @@ def dispatch (cmd : String) : Option (P String) :=
   | "c10.combine" => some C10.comb
   | "c11.run" => some C11.run
   | "c11.runat" => some C11.runat
+  | "c11.writer" => some C11.writer
   | "c12.exchange" => some C12.exchange
   | "c12.events" => some C12.events
   | "c20.route" => some C12.route
